@@ -334,7 +334,7 @@ def run(ctx):
     undocumented, unimplemented = spec.coverage_against(BUILTIN_MAP)
     if unimplemented:
         raise HarnessError(f"spec names unknown to PSyclone: {unimplemented}")
-    ctx.extra["builtins_in_psyclone"] = len(BUILTIN_MAP)
+    ctx.extra["builtins_in_psyclone"] = str(len(BUILTIN_MAP))
     ctx.extra["undocumented_builtins"] = list(undocumented)
     names = list(spec.ORDER)
     shard_dir = os.path.join(ROOT, f"shard{ctx.shard}")
